@@ -127,3 +127,94 @@ Definition u_quota_selector (a : sx) : sx :=
       end
   | _ => bad_input
   end.
+
+(* ------------------------------------------------------------------ C16 *)
+From VL Require Import Model.Threshold.
+
+Fixpoint as_sel_fuel (f : nat) (s : sx) : option sel :=
+  match f with
+  | O => None
+  | S f' =>
+      match s with
+      | L [A 0; t; ae] => match as_Q t, as_bool ae with Some t, Some ae => Some (SAbs t ae) | _, _ => None end
+      | L [A 1; t; ae] => match as_Q t, as_bool ae with Some t, Some ae => Some (SRel t ae) | _, _ => None end
+      | L [A 2; L ps] => match opt_map (as_sel_fuel f') ps with Some ps => Some (SAlt ps) | None => None end
+      | _ => None
+      end
+  end.
+Definition as_sel := as_sel_fuel 8.
+Definition as_opt {X} (f : sx -> option X) (s : sx) : option (option X) :=
+  match s with
+  | L [] => Some None
+  | L [x] => match f x with Some v => Some (Some v) | None => None end
+  | _ => None
+  end.
+
+(* args: (sel votes) *)
+Definition u_threshold (a : sx) : sx :=
+  match a with
+  | L [s; v] =>
+      match as_sel s, as_dict as_pos as_Q v with
+      | Some s, Some votes => ok (L (map of_pos (sel_eval s votes)))
+      | _, _ => bad_input
+      end
+  | _ => bad_input
+  end.
+
+(* args: (evals default bracket votes) ; evals = ((b optsel) ...) *)
+Definition u_bracket (a : sx) : sx :=
+  match a with
+  | L [e; d; b; v] =>
+      match as_listof (as_pair as_Z (as_opt as_sel)) e, as_opt as_sel d, as_dict as_pos as_Z b, as_dict as_pos as_Q v with
+      | Some evals, Some dflt, Some br, Some votes => ok (L (map of_pos (bracket_eval evals dflt br votes)))
+      | _, _, _, _ => bad_input
+      end
+  | _ => bad_input
+  end.
+
+(* args: (jump quota th ae lp votes n list) ; jump = () | (q) ; quota = () | (spec frac) *)
+Definition u_openlist (a : sx) : sx :=
+  match a with
+  | L [j; qf; th; ae; lp; v; n; l] =>
+      let quota :=
+        match qf with
+        | L [] => Some None
+        | L [qs; fr] => match as_quota qs, as_Q fr with
+                        | Some qs, Some fr => Some (Some (fun t s => (quota_fn qs t s * fr)%Q))
+                        | _, _ => None
+                        end
+        | _ => None
+        end in
+      match as_opt as_Q j, quota, as_bool th, as_bool ae, as_bool lp with
+      | Some j, Some quota, Some th, Some ae, Some lp =>
+          match as_dict as_pos as_Q v, as_nat n, as_listof as_pos l with
+          | Some votes, Some n, Some lst =>
+              ok (L (map of_pos (openlist_eval (Build_ol_cfg j quota th ae lp) votes n lst)))
+          | _, _, _ => bad_input
+          end
+      | _, _, _, _, _ => bad_input
+      end
+  | _ => bad_input
+  end.
+
+Definition as_res (s : sx) : option (res positive) :=
+  match s with
+  | A (Zpos p) => Some (Cand p)
+  | L l => match opt_map as_pos l with Some l => Some (TieR l) | None => None end
+  | _ => None
+  end.
+
+(* args: (elected list) *)
+Definition u_break_by_list (a : sx) : sx :=
+  match a with
+  | L [e; l] =>
+      match as_listof as_res e, as_listof as_pos l with
+      | Some el, Some lst =>
+          match break_by_list el lst [] [] with
+          | BL_ok r => ok (L (map of_pos r))
+          | BL_index => err E_INDEX
+          end
+      | _, _ => bad_input
+      end
+  | _ => bad_input
+  end.
